@@ -2,6 +2,7 @@ package checks
 
 import (
 	"fmt"
+	"strings"
 
 	"github.com/resgateio/resgate/server"
 	"verif/harness/mc"
@@ -134,6 +135,36 @@ func accScenarios(tier string) []*mc.Scenario {
 			},
 		})
 	}
+	// a grant obtained for a direct subscription that was given up while the
+	// resource stays held indirectly, invalidated, then used again
+	for _, trig := range []string{"token", "reaccess", "reset"} {
+		trig := trig
+		out = append(out, &mc.Scenario{
+			Name: "acc/indirect-grant/" + trig, Props: []string{"C04", "C05"}, Init: basicInit, Monitors: allMons(),
+			Conns: []mc.ConnSpec{conn(latest,
+				req("subscribe.test.m", 1), req("subscribe.test.x", 1), reqp("call.test.x.set", `{}`, 1), req("unsubscribe.test.x", 2),
+				req("subscribe.test.x", 4), reqp("call.test.x.set", `{}`, 4), req("get.test.x", 5))},
+			Threads: []mc.Thread{{Name: "svc", Ops: []mc.Op{
+				tokenOp(0, `{"u":1}`, "", 0),
+				op("trigger", 3, func(w *mc.World) {
+					switch trig {
+					case "token":
+						w.Svc.TokenEvent(0, `{"u":2}`, "")
+					case "reaccess":
+						w.Svc.Reaccess("test.x")
+					case "reset":
+						w.Svc.Reset(nil, []string{"test.x"})
+					}
+				}),
+			}}},
+			Menu: func(w *mc.World, r *mc.Req) []mc.Outcome {
+				if r.Subject == "access.test.x" {
+					return []mc.Outcome{w.OK(r), mc.Raw("deny", `{"result":{"get":false}}`)}
+				}
+				return nil
+			},
+		})
+	}
 	// HTTP
 	out = append(out, &mc.Scenario{
 		Name: "acc/http", Props: []string{"C04", "C05", "C11"}, Init: basicInit, Monitors: allMons(),
@@ -195,6 +226,7 @@ func isoScenarios(tier string) []*mc.Scenario {
 		Threads: []mc.Thread{{Name: "svc", Ops: []mc.Op{
 			tokenOp(0, `{"u":1}`, "a", 0), tokenOp(1, `{"u":2}`, "b", 0),
 			tokenOp(1, `{"u":22}`, "b", 2),
+			tokenOp(0, `{"u":11}`, "", 2),
 			op("x.n=1", 2, func(w *mc.World) { w.Svc.Change("test.x", "n", `1`) }),
 			op("tokenReset a", 3, func(w *mc.World) { w.Svc.TokenReset("auth.test.renew", "a") }),
 			op("http", 3, func(w *mc.World) { w.HTTP(mc.HTTPReq{Method: "GET", URL: "/api/test/m"}) }),
@@ -233,6 +265,14 @@ func discScenarios(tier string) []*mc.Scenario {
 		// a fault at every step of the base history = bound 1; thorough adds one more deviation
 		c.Bound = map[string]int{"quick": 1, "thorough": 2}
 		out = append(out, &c)
+		// the same with slow connection workers: answers and cache workers
+		// overtake the queued disposal
+		if strings.HasPrefix(s.Name, "conv/model-refs/1.2.3") || strings.HasPrefix(s.Name, "cache/lifecycle") || strings.HasPrefix(s.Name, "conv/shared") || strings.HasPrefix(s.Name, "query/alias/ab-n") || strings.HasPrefix(s.Name, "acc/read-outcomes") {
+			l := c
+			l.Name = "disc-lazy/" + s.Name
+			l.LazyConns = true
+			out = append(out, &l)
+		}
 	}
 	return out
 }
